@@ -613,6 +613,10 @@ func (x *c07Run) runStream(sc *c07Scenario, m *material) {
 			res.Probes["cut_in:"+field]++
 		}
 	}
+	// a scanner that has stopped stays stopped, with the error it recorded
+	if r.Panic == "" && r.Unsticky != "" {
+		x.violate(sc, "end-of-scan-not-final", format, r.Unsticky)
+	}
 	// an error returned by the reader must not be turned into a clean end of input
 	if cut && simpipe.IsErrorKind(fkind) && r.Reader.ErrorDelivered && r.Err == nil {
 		x.violate(sc, "read-error-swallowed", format, fmt.Sprintf("the reader failed with an I/O error at offset %d (in %s); the scan returned %d records and Err()==nil", c, field, len(r.Seqs)))
